@@ -374,4 +374,59 @@ theorem new_file_content (cfg : Cfg) (hB : 0 < cfg.bufSize) (noSparse : Bool) (m
       simp [this]
 
 
+theorem replay_delivers (t : List Ev) :
+    ∀ (W : List UInt8) (d : Dest) (k : Nat) (gap : Bool), d.kind = .regular → d.flags.append = false →
+      d.offset = d.content.length + k → (gap = false → k = 0) → traceDelivers t W gap = true →
+      (replayTrace t W d).content = d.content ++ zeros k ++ W ∧
+      (replayTrace t W d).offset = (d.content ++ zeros k ++ W).length := by
+  induction t with
+  | nil =>
+    intro W d k gap _ _ hoff hgap h
+    simp only [traceDelivers, Bool.and_eq_true, Bool.not_eq_true'] at h
+    have hk := hgap h.2
+    have hW : W = [] := by simpa using h.1
+    subst hk; subst hW
+    simp [replayTrace, zeros, hoff]
+  | cons e t ih =>
+    intro W d k gap hreg hna hoff hgap h
+    cases e with
+    | write n =>
+      simp only [traceDelivers, Bool.and_eq_true, decide_eq_true_eq] at h
+      obtain ⟨⟨hn0, hn⟩, ht⟩ := h
+      obtain ⟨w1, w2, w3, w4⟩ := write_at_end hreg hna k hoff (W.take n)
+      have := ih (W.drop n) (d.write (W.take n)) 0 false w3 (by rw [w4]; exact hna) (by simpa using w2) (fun _ => rfl) ht
+      simp only [replayTrace]
+      rw [this.1, this.2, w1]
+      simp [zeros, List.append_assoc]
+    | seekCur dl r =>
+      simp only [traceDelivers, Bool.and_eq_true, decide_eq_true_eq] at h
+      obtain ⟨⟨hle, hz⟩, ht⟩ := h
+      have hzz := isSparse_eq_zeros hz
+      have hlen : (W.take dl).length = dl := by simp; omega
+      rw [hlen] at hzz
+      have hsplit : W = zeros dl ++ W.drop dl := by
+        conv => lhs; rw [← List.take_append_drop dl W]
+        rw [hzz]
+      simp only [replayTrace, Dest.seekCur, hreg, Option.getD_some]
+      have := ih (W.drop dl) { d with offset := d.offset + dl } (k + dl) (gap || decide (0 < dl)) hreg hna
+        (by simp [hoff]; omega)
+        (by
+          intro hg
+          simp only [Bool.or_eq_false_iff, decide_eq_false_iff_not] at hg
+          have := hgap hg.1
+          omega)
+        ht
+      rw [hreg] at this
+      simp only at this
+      rw [this.1, this.2]
+      have hz2 : zeros (k + dl) = zeros k ++ zeros dl := zeros_add k dl
+      constructor
+      · simp only [hz2, List.append_assoc]
+        conv => rhs; rw [hsplit]
+      · simp only [hz2, List.append_assoc]
+        conv => rhs; rw [hsplit]
+    | setfl a b => simpa [replayTrace, traceDelivers] using ih W d k gap hreg hna hoff hgap (by simpa [traceDelivers] using h)
+    | seekEnd r => simpa [replayTrace, traceDelivers] using ih W d k gap hreg hna hoff hgap (by simpa [traceDelivers] using h)
+
+
 end XzVerif.Sparse
